@@ -120,3 +120,25 @@ structure GIds (s : S) : Prop where
          s.wpc = .deal ∨ s.wpc = .sub ∨ s.wpc = .flush)
 
 end Netpoll.Shard
+
+namespace Netpoll.Shard
+
+/-- small monotonicity facts -/
+structure GMisc (s : S) : Prop where
+  m1 : s.alive = true → s.skipped = []
+  m2 : s.idx < 2147483648 → s.lost = [] ∧ s.panics = 0
+  m3 : s.state = active → s.ignored = [] ∧ s.closeOk = 0 ∧ s.cState + s.cTrig + s.cStore = 0
+  m4 : s.state = 0 ∨ s.state = 1 ∨ s.state = 2
+
+theorem wrap32_of_lt {i : Nat} (hi : i < 2147483648) : wrap32 i = (i : Int) := by
+  have h1 : i % 4294967296 = i := Nat.mod_eq_of_lt (by omega)
+  simp only [wrap32, h1, hi, if_true]
+
+theorem shardOf_some_of_lt {i n : Nat} (hi : i < 2147483648) : shardOf i n ≠ none := by
+  have : (0 : Int) ≤ Int.tmod (i : Int) (n : Int) := Int.tmod_nonneg _ (by omega)
+  simp only [shardOf, wrap32_of_lt hi]
+  split
+  · omega
+  · simp
+
+end Netpoll.Shard
